@@ -362,6 +362,7 @@ Proof.
   - eapply driver_acct; eauto.
   - destruct H as (V & S & _). apply plain_acct; auto.
   - apply plain_acct; reflexivity.
+  - eapply acct_trans; [eapply transition_acct; eauto|eapply perform_acct; eauto].
 Qed.
 Lemma mstar_acct s s' : MStar env s s' -> acct s s'.
 Proof. induction 1 as [|s1 s2 s3 M _ IH]; [apply acct_refl|]. eapply acct_trans; [eapply mstep_acct; eauto|exact IH]. Qed.
